@@ -215,7 +215,7 @@ Print Assumptions C11_unsubscribed_inside_send.
 Example C11_regression_shared_kwargs :
   snd (step Tx (final Tx w_shared_ops) (OpEvent (w_event [(0, KInt 1%Z)]))) =
     [OInvoke 1 false [1%Z] [(0, KInt 1%Z); (3, KDet {| d_owner := 1; d_sub := 71; d_pub := 900; d_publisher := None;
-                                                      d_topic := 1; d_retained := None |})] true;
+                                                      d_topic := 1; d_retained := None; d_extra := 5 |})] true;
      OInvoke 2 false [1%Z] [(0, KInt 1%Z)] true;
      OInvoke 3 false [1%Z] [(0, KInt 1%Z)] true].
 Proof. reflexivity. Qed.
@@ -284,7 +284,7 @@ Example C11_inside_send_nonvacuous :
                     OpUnsubscribe 1 [MsgEvent (w_event []); MsgUnsubscribed 2; MsgEvent (w_event [])]]) =
     [[OSent (MSubscribe 1 1 None None);
       OInvoke 1 false [1%Z] [(3, KDet {| d_owner := 1; d_sub := 71; d_pub := 900; d_publisher := None; d_topic := 1;
-                                        d_retained := None |})] true;
+                                        d_retained := None; d_extra := 5 |})] true;
       ODone 1 (RSub 71)];
      [OSent (MUnsubscribe 2 71); ORaised EProtocolError; ODoneU 1 (RNum 0)]].
 Proof. reflexivity. Qed.
@@ -293,7 +293,7 @@ Proof. reflexivity. Qed.
 Example C11_last_and_race_nonvacuous :
   let ops := [w_sub BReturn None; OpSubscribed 1 71; w_sub BReturn None; OpSubscribed 2 71;
               OpUnsubscribe 1 []; OpUnsubscribe 2 []; OpEvent (w_event []); OpUnsubscribed 3; OpEvent (w_event []);
-              OpEvent {| e_sub := 5; e_pub := 1; e_args := []; e_kwargs := []; e_publisher := None; e_topic := None; e_retained := None |}] in
+              OpEvent {| e_sub := 5; e_pub := 1; e_args := []; e_kwargs := []; e_publisher := None; e_topic := None; e_retained := None; e_extra := 0 |}] in
   snd (run Tx init ops) =
     [[OSent (MSubscribe 1 1 None None)]; [ODone 1 (RSub 71)]; [OSent (MSubscribe 2 1 None None)]; [ODone 2 (RSub 71)];
      [ODoneU 1 (RNum 1)]; [OSent (MUnsubscribe 3 71)]; []; [ODoneU 2 (RNum 0)]; [ORaised EProtocolError]; [ORaised EProtocolError]].
